@@ -327,10 +327,13 @@ class Cell:
     def __init__(self, em):
         repo = em.repo
         cands = []
-        # fields written while a generator runs (a binder stores, suspends, and restores) - through any receiver: a write
-        # from outside the class is for the ownership rule to report, not a reason to overlook the field
-        gen_writes = {n.attr for m in repo.all_functions(('engine',)) if m.is_generator for n in own_nodes(m.node)
-                      if isinstance(n, ast.Attribute) and isinstance(n.ctx, ast.Store)}
+        # fields written outside constructors - through any receiver: a write from outside the class is for the ownership
+        # rule to report, not a reason to overlook the field - except what dereferencing itself writes (a cache is not the cell)
+        derefs = {n.attr for m in repo.all_functions(('engine',)) if m.name == 'get_value' for n in own_nodes(m.node)
+                  if isinstance(n, ast.Attribute) and isinstance(n.ctx, ast.Store)}
+        gen_writes = {n.attr for m in repo.all_functions(('engine',)) for n in own_nodes(m.node)
+                      if isinstance(n, ast.Attribute) and isinstance(n.ctx, ast.Store) and
+                      not (m.name == '__init__' and is_name(n.value, m.params[0] if m.params else 'self'))} - derefs
         for c in repo.all_classes(('engine',)):
             gv = c.methods.get('get_value')
             if gv is None:
@@ -342,7 +345,7 @@ class Cell:
                 cands.append((c, tuple(sorted(reads & gen_writes))))
         if len(cands) != 1:
             raise AnalysisError('anchor vanished: the binding cell (fields of a term class that its get_value reads and that are '
-                                'written while a generator runs) is found in %d classes' % len(cands))
+                                'written outside constructors and outside get_value) is found in %d classes' % len(cands))
         self.cls, self.fields = cands[0]
         stores = {}
         for f in repo.all_functions(('engine',)):
